@@ -35,6 +35,8 @@ def run(v, workdir, replay):
     v.need("blocks_with_signed_vote_extensions", 40)
     v.need("blocks_changing_currency_pairs", 5)
     v.need("decided_block_is_twin_of_a_nodes_own_proposal", 10)
+    v.need("executed_txs_checked_before_an_upgrade_and_executed_in_the_upgrade_block", 100)
+    v.need("straddles_upgrade:bridge_sudo_change", 3)
     for f in ("time", "next_validators_hash", "proposer_address", "misbehavior"):
         v.need("twin_differs_in:" + f, 1)
 
@@ -72,6 +74,9 @@ def check(v, hists):
             if any(e["kind"] == "tx_built" and e.get("intent", "").startswith("currency_pairs:") for e in evs):
                 v.saw("blocks_changing_currency_pairs")
             for e in evs:
+                if e["kind"] == "lab_tx" and e["result"] == "ok" and intents.get(e["id"], "").startswith("straddles_upgrade:"):
+                    v.saw("executed_txs_checked_before_an_upgrade_and_executed_in_the_upgrade_block")
+                    v.saw("straddles_upgrade:" + intents[e["id"]].split(":")[1])
                 if e["kind"] == "twin_of_own_proposal":
                     v.saw("decided_block_is_twin_of_a_nodes_own_proposal")
                     v.saw("twin_differs_in:" + e["differs_in"])
